@@ -450,6 +450,20 @@ def solo(kind, name, config=None):
     return serve(make_app(fresh_config(config)), environ_for(kind, name))
 
 
+def solo_fresh_interpreter(kind, name):
+    """The same request served by a fresh application in a fresh interpreter: the reference for arrangements in which
+    computing the reference in this process would itself be the 'first use' that hides (or causes) the interference."""
+    import subprocess
+    code = ('import sys, json; sys.path.insert(0, %r); from harness import core; core.setup_repo_path(); '
+            'from harness.checks import lifelib as L; print("REF" + json.dumps(L.solo(%r, %r)))' % (core.VERIF, kind, name))
+    env = dict(__import__('os').environ, VERIF_REPO=core.REPO, PYTHONHASHSEED='0')
+    p = subprocess.run([sys.executable, '-c', code], capture_output=True, text=True, env=env, timeout=120)
+    for line in p.stdout.splitlines():
+        if line.startswith('REF'):
+            return json.loads(line[3:])
+    raise core.MachineryError('reference interpreter failed: %s' % (p.stdout + p.stderr)[-600:])
+
+
 def run_threads(app_of_thread, reqs, schedule, acc=None, line_files=None, record=True):
     """Serve reqs[i] = (kind, name) on thread i (application app_of_thread[i]) under a forced schedule.
     Returns (responses, accessor events, schedule actually taken)."""
